@@ -11,6 +11,7 @@ class FormatError(RefCodecError):
     def __init__(self, reason: str):
         super().__init__(reason)
         self.reason = reason
+        self.partial = None  # decoder output recovered despite the violation (used by strict=False)
 
 
 class NeedPassword(RefCodecError):
